@@ -27,6 +27,17 @@ SCFG = "grep_searcher::searcher::Config"
 RANGE = "grep_matcher::Match"
 
 
+def kinds_in(e):
+    """SinkContextKind variants mentioned in an expression (aggregate or fieldless-enum constant form)."""
+    out = []
+    for x in walk(e):
+        if x.k == "agg" and x[1].endswith("SinkContextKind"):
+            out.append(x[2])
+        elif x.k == "const" and x[2] and "SinkContextKind::" in str(x[2]):
+            out.append(str(x[2]).split("SinkContextKind::")[-1].strip("} "))
+    return out
+
+
 def siblings(facts):
     out = []
     for f in facts.fns_in(CORE + "::"):
@@ -39,10 +50,13 @@ def siblings(facts):
 def run(ctx):
     facts = ctx.facts
     sib = siblings(facts)
-    with ctx.rule("C03.DELIVER", "the four line-delivering siblings agree on binary check, counting, offset, cursor update",
-                  floor=20, kind="PARITY") as r:
-        if len(sib) != 4:
-            r.bad("siblings", "anchor-missing: expected 4 delivering routines in Core, found %s" % [f.name for f, _ in sib])
+    with ctx.rule("C03.DELIVER", "the line-delivering siblings agree on binary check, counting, offset, cursor update",
+                  floor=14, kind="PARITY") as r:
+        msib = [f.name for f, dc in sib if dc.is_(SINK + "::matched")]
+        csib = [f.name for f, dc in sib if dc.is_(SINK + "::context")]
+        if len(msib) != 1 or not csib:
+            r.bad("siblings", "anchor-missing: expected one match-delivering and at least one context-delivering routine in Core, "
+                  "found %s / %s" % (msib, csib))
         rearm, decr = [], []
         for f, dc in sib:
             eb = ExprBuilder(f)
@@ -87,6 +101,18 @@ def run(ctx):
                         for o, fl in fields_of_place(st["place"]):
                             if o == CORE:
                                 w[fl] = eb.rvalue(st["rv"])
+                # writes performed by a same-crate helper called in the region (value checked inside the helper)
+                for c in f.calls():
+                    if c.bb in blocks and c.path.startswith(CORE + "::") and c.path not in (CORE + "::count_lines", CORE + "::detect_binary",
+                                                                                           CORE + "::sink_break_context"):
+                        g = facts.fns.get(c.path)
+                        if g is not None:
+                            ebg_ = ExprBuilder(g)
+                            for bb2, j2, st2 in g.stmts():
+                                if st2["k"] == "assign":
+                                    for o, fl in fields_of_place(st2["place"]):
+                                        if o == CORE and fl not in w:
+                                            w[fl] = ebg_.rvalue(st2["rv"])
                 return w
             s1 = seed_after_call(f, dc, V("Ok", I(1)))
             s0 = seed_after_call(f, dc, V("Ok", I(0)))
@@ -96,12 +122,12 @@ def run(ctx):
             if not good:
                 r.bad("%s|cursor" % nm, "after a delivered line %s does not set last_line_visited = range.end() and has_sunk = true"
                       % nm, fn=f, construct="cursor")
-            elif "last_line_visited" in w0 or "has_sunk" in w0:
-                r.bad("%s|cursor" % nm, "%s updates the cursor even when the sink refused the line" % nm, fn=f, construct="cursor")
             else:
-                r.ok("%s|cursor" % nm, "keep-going ⇒ last_line_visited = range.end(), has_sunk = true; refused ⇒ untouched", fn=f)
-            if "after_context_left" in w1:
-                e = w1["after_context_left"]
+                # (what happens to the cursor after a refusal is unobservable — the search ends — and is not demanded)
+                r.ok("%s|cursor" % nm, "keep-going ⇒ last_line_visited = range.end(), has_sunk = true", fn=f)
+            wall = writes_in(set(range(len(f.blocks))))
+            if "after_context_left" in wall:
+                e = wall["after_context_left"]
                 if mentions_field(e, SCFG, "after_context"):
                     rearm.append(nm)
                 else:
@@ -114,22 +140,66 @@ def run(ctx):
                     r.ok("%s|bytes" % nm, "event bytes = buf[*range]", fn=f)
                 else:
                     r.bad("%s|bytes" % nm, "event bytes are `%s`" % show(e)[:80], fn=f)
-        if rearm == ["sink_matched"] and decr == ["sink_after_context"]:
-            r.ok("after_context_left", "re-armed only by sink_matched, decremented only by sink_after_context")
+        if rearm == msib and decr and set(decr) <= set(csib):
+            r.ok("after_context_left", "re-armed only by the match routine (%s), decremented only by context delivery (%s)" % (rearm, decr))
         else:
             r.bad("after_context_left", "after_context_left is re-armed by %s and decremented by %s" % (rearm, decr),
                   construct="after_context_left")
         # context kinds
-        KIND = {"sink_before_context": "Before", "sink_after_context": "After", "sink_other_context": "Other"}
+        # all three context kinds are delivered by someone: as a literal in a dedicated routine, or passed by the
+        # callers of a shared routine
+        kinds = {}
         for f, dc in sib:
-            if f.name in KIND:
-                eb = ExprBuilder(f)
-                ev = eb.operand(dc.args[2])
-                ks = [x for x in walk(ev) if x.k == "agg" and x[1].endswith("SinkContextKind")]
-                if ks and ks[0][2] == KIND[f.name]:
-                    r.ok("%s|kind" % f.name, "SinkContextKind::%s" % KIND[f.name], fn=f)
-                else:
-                    r.bad("%s|kind" % f.name, "%s delivers context of kind %s" % (f.name, ks[0][2] if ks else "?"), fn=f, construct="kind")
+            if not dc.is_(SINK + "::context"):
+                continue
+            eb = ExprBuilder(f)
+            ev = eb.operand(dc.args[2])
+            ks = kinds_in(ev)
+            for k_ in ks:
+                kinds.setdefault(k_, []).append(f.name)
+            if not ks:
+                for c in facts.callers_of(f.path):
+                    ebc = ExprBuilder(c.fn)
+                    for a in c.args:
+                        for k_ in kinds_in(ebc.operand(a)):
+                            kinds.setdefault(k_, []).append(c.fn.name + "→" + f.name)
+        for k in ("Before", "After", "Other"):
+            if k in kinds:
+                r.ok("kind|" + k, "SinkContextKind::%s delivered by %s" % (k, sorted(set(kinds[k]))))
+            else:
+                r.bad("kind|" + k, "no routine delivers context of kind %s" % k, construct="kind")
+        # a dedicated routine must deliver the kind its callers expect: before_context_by_line → Before, etc.
+        EXPECT = {"before_context_by_line": "Before", "after_context_by_line": "After", "other_context_by_line": "Other"}
+        for caller, k in EXPECT.items():
+            g = facts.fns.get(CORE + "::" + caller)
+            if g is None:
+                continue
+            ebg = ExprBuilder(g)
+            ok = False
+
+            def kinds_via(fn_, call, depth=0):
+                """kinds delivered when `fn_` makes `call` (following thin wrappers one level)."""
+                tgt = [f for f, dc in sib if f.path == call.path and dc.is_(SINK + "::context")]
+                ebx = ExprBuilder(fn_)
+                passed = [k_ for a in call.args for k_ in kinds_in(ebx.operand(a))]
+                if tgt:
+                    lit = kinds_in(ExprBuilder(tgt[0]).operand([dc for f_, dc in sib if f_ is tgt[0]][0].args[2]))
+                    return lit or passed
+                h = facts.fns.get(call.path)
+                if h is not None and depth < 2 and call.path.startswith(CORE + "::"):
+                    out = []
+                    for c2 in h.calls():
+                        if c2.path.startswith(CORE + "::"):
+                            out += kinds_via(h, c2, depth + 1)
+                    return out
+                return []
+            for c in g.calls():
+                if c.path.startswith(CORE + "::") and k in kinds_via(g, c):
+                    ok = True
+            if ok:
+                r.ok("route|" + caller, "%s delivers %s context" % (caller, k), fn=g)
+            else:
+                r.bad("route|" + caller, "%s does not deliver context of kind %s" % (caller, k), fn=g, construct="kind")
 
     with ctx.rule("C03.BREAK", "separator ⇔ (before>0 ∨ after>0) ∧ has_sunk ∧ last_line_visited < start (16 rows); consulted before matches and before-context",
                   floor=18, exhaustive=True, kind="TRUTH/DOM") as r:
